@@ -8,7 +8,7 @@ subprocess.run(["/verif/harness/target/debug/pasfmt-verif-harness","emit","--str
 with open(f"{d}/cases.in") as f, open(f"{d}/cases.out","w") as o:
     subprocess.run(["/verif/lean/.lake/build/bin/pvdriver"],stdin=f,stdout=o,check=True)
 exp=open(f"{d}/cases.exp").read().split('\n')
-out=open(f"{d}/cases.out").read().split('\n')
+out=['\t'.join(x for x in l.split('\t') if not x.startswith('info_')) for l in open(f"{d}/cases.out").read().split('\n')]
 meta=open(f"{d}/cases.meta").read().split('\n')
 bad=[i for i,(a,b) in enumerate(zip(exp,out)) if a!=b]
 print(len(exp)-1,"cases",len(bad),"mismatches")
